@@ -46,8 +46,8 @@ class Ref:
         self.T = list(targets)
         self.bufs = [[]]
         self.raised = []
-        self.depth = 0  # number of stateful constructs entered and not left
-        self.inside = []  # depth at each raise
+        self.path = []  # labels of the stateful constructs entered and not left
+        self.inside = []  # construct path at each raise
         self.writes_after = 0  # writes since the last raise
         escaped = None
         root = self.prog["root"]
@@ -55,7 +55,7 @@ class Ref:
             self.block(self.prog["files"][root]["body"], Env(None, root))
         except RBoom as e:
             escaped = e.i
-        assert len(self.bufs) == 1 and self.depth == 0
+        assert len(self.bufs) == 1 and not self.path
         return {
             "out": "".join(self.bufs[0]),
             "escaped": escaped,
@@ -78,7 +78,7 @@ class Ref:
         if i in self.T:
             self.T.remove(i)
             self.raised.append(i)
-            self.inside.append(self.depth)
+            self.inside.append(list(self.path))
             self.writes_after = 0
             raise RBoom(i)
 
@@ -114,29 +114,29 @@ class Ref:
         elif k == "for":
             cell = [0]
             env.loops.append(cell)
-            self.depth += 1
+            self.path.append("for")
             try:
                 for _ in range(s[1]):
                     self.block(s[2], env)
                     cell[0] += 1
             finally:
                 env.loops.pop()
-                self.depth -= 1
+                self.path.pop()
         elif k == "call":
             self.call(s, env)
         elif k == "textf":
             self.push()
-            self.depth += 1
+            self.path.append("textf")
             try:
                 self.write(s[2])
             finally:
                 t = self.pop()
-                self.depth -= 1
+                self.path.pop()
             self.probe(s[1])
             self.write("{" + t + "}")
         elif k == "inc":
             f = self.prog["files"][s[1]]
-            self.depth += 1
+            self.path.append("inc")
             try:
                 try:
                     self.block(f["body"], Env(None, s[1]))
@@ -145,14 +145,14 @@ class Ref:
                         raise
                     self.write("[IEH]")
             finally:
-                self.depth -= 1
+                self.path.pop()
         elif k == "inh":
             f = self.prog["files"][s[1]]
-            self.depth += 1
+            self.path.append("inh")
             try:
                 self.block(f["body"], Env(None, s[1]))
             finally:
-                self.depth -= 1
+                self.path.pop()
         else:
             raise ValueError(k)
 
@@ -164,11 +164,11 @@ class Ref:
         stmts, cenv = c
         # inside body(), `caller` is the caller of the callable the <%call> is written in;
         # (no % for inside call content: the loop stack there is not fixed by A4)
-        self.depth += 1
+        self.path.append("content")
         try:
             self.block(stmts, cenv)
         finally:
-            self.depth -= 1
+            self.path.pop()
 
     def call(self, s, env):
         _, form, name, argprobe, content = s
@@ -178,12 +178,12 @@ class Ref:
             self.write(self.calldef(d, uri, None))
         elif form == "cap":
             self.push()
-            self.depth += 1
+            self.path.append("cap")
             try:
                 self.calldef(d, uri, None)  # capture() ignores what the callable returns
             finally:
                 t = self.pop()
-                self.depth -= 1
+                self.path.pop()
             self.write(t)
         else:
             # the body is a closure over the calling callable; its `caller` is that callable's caller
@@ -209,12 +209,12 @@ class Ref:
 
     def run_buffered(self, d, uri, caller):
         self.push()
-        self.depth += 1
+        self.path.append("buf")
         try:
             self.block(d["body"], Env(caller, uri))
         finally:
             t = self.pop()
-            self.depth -= 1
+            self.path.pop()
         return t
 
     def calldef2(self, d, uri, caller):
@@ -222,11 +222,11 @@ class Ref:
             key = ("render_" if d["top"] else "") + d["name"]
             store = self.cache.setdefault(uri, {})
             if key not in store:
-                self.depth += 1
+                self.path.append("cache")
                 try:
                     t = self.filt(d, self.run_buffered(d, uri, caller))
                 finally:
-                    self.depth -= 1
+                    self.path.pop()
                 store[key] = t
             t = store[key]
             if d["b"]:
@@ -239,9 +239,9 @@ class Ref:
             t = self.run_buffered(d, uri, caller)
             self.write(self.filt(d, t))
             return ""
-        self.depth += 1
+        self.path.append("def")
         try:
             self.block(d["body"], Env(caller, uri))
         finally:
-            self.depth -= 1
+            self.path.pop()
         return ""
